@@ -300,8 +300,66 @@ func CorpusGraph(i int) (string, [][]string) {
 	return "F10-" + c.Name, es
 }
 
+// Slack is family F12: chains of different lengths between a common top and a common bottom node, plus extra sources
+// and sinks attached to chain nodes. Shorter chains have slack, so their nodes (in-degree = out-degree) are exactly
+// the nodes that balancing moves between layers; two adjacent movable nodes with slack between them are frequent.
+func Slack(r *rand.Rand) IG {
+	k := 2 + r.Intn(4)
+	var e [][2]int
+	top, n := 0, 1
+	var chainNodes []int
+	var ends []int
+	for c := 0; c < k; c++ {
+		l := 1 + r.Intn(6)
+		prev := top
+		for d := 0; d < l; d++ {
+			e = append(e, [2]int{prev, n})
+			chainNodes = append(chainNodes, n)
+			prev = n
+			n++
+		}
+		ends = append(ends, prev)
+	}
+	bottom := n
+	n++
+	for _, v := range ends {
+		e = append(e, [2]int{v, bottom})
+	}
+	for x := r.Intn(4); x > 0; x-- { // extra sources
+		src := n
+		n++
+		for t := 1 + r.Intn(3); t > 0; t-- {
+			e = append(e, [2]int{src, chainNodes[r.Intn(len(chainNodes))]})
+		}
+		if r.Intn(2) == 0 {
+			e = append(e, [2]int{src, bottom})
+		}
+	}
+	for x := r.Intn(3); x > 0; x-- { // extra sinks
+		snk := n
+		n++
+		for t := 1 + r.Intn(2); t > 0; t-- {
+			e = append(e, [2]int{chainNodes[r.Intn(len(chainNodes))], snk})
+		}
+	}
+	// dedupe
+	seen := map[[2]int]bool{}
+	var out [][2]int
+	for _, x := range e {
+		if !seen[x] {
+			seen[x] = true
+			out = append(out, x)
+		}
+	}
+	shuffleEdges(r, out)
+	return IG{n, out, "F12-slack"}
+}
+
 // Coincidence is family F11: structures aimed at the mechanisms named in the properties.
 func Coincidence(r *rand.Rand) IG {
+	if r.Intn(4) == 0 {
+		return Slack(r)
+	}
 	switch r.Intn(5) {
 	case 0:
 		// hub inside a cycle with k adjacent out-edges towards nodes that all point back to a common predecessor:
